@@ -92,6 +92,14 @@ def c11_miri(prop, tier, seed, workdir, cfg):
     return _fold_miri(prop, res, "miri")
 
 
+def c03_miri(prop, tier, seed, workdir, cfg):
+    """C03: the YAML front matter / escape / consumer slice under Miri (unsafe code of dependencies)."""
+    shards = 4 if tier == "quick" else 16
+    res = miri_run("C03", tier, seed, workdir, shards, 900 if tier == "quick" else 5400,
+                   extra_env={"VERIF_SCALE": "1" if tier == "quick" else "8"})
+    return _fold_miri(prop, res, "miri")
+
+
 def setup():
     """Warm the Miri build of the harness so that quick checks do not pay for it."""
     env = _miri_env()
